@@ -128,6 +128,9 @@ type Run struct {
 	Start    time.Time
 	Scratch  string
 	crashes  int64 // child crashes/hangs pinned down so far (atomic)
+	// CrossRoute, when set, recognises a child death that is the consequence of
+	// an open finding of another property (returns the evidence counter to bump).
+	CrossRoute func(stderr string) (string, bool)
 
 	mu        sync.Mutex
 	Coverage  map[string]any
